@@ -9,6 +9,7 @@ import Driver.Commit
 import Driver.Ev
 import Driver.Cfg
 import Driver.Isect
+import Driver.Heap
 /-! Model driver: one request per line on stdin, one answer per line on stdout.
     Pure areas answer from the request alone; `store` threads the backend states. -/
 open Drv
@@ -16,6 +17,7 @@ open Drv
 structure State where
   store : Store.DrvSt := {}
   commit : Commit.CS := {}
+  heap : HeapArea.DrvSt := {}
 
 def dispatch (st : State) (line : String) : State × String :=
   match (line.splitOn " ").filter (· ≠ "") with
@@ -29,6 +31,7 @@ def dispatch (st : State) (line : String) : State × String :=
   | "isect" :: r => (st, Isect.handle r)
   | "punion" :: r => (st, Isect.handleUnion r)
   | "commit" :: r => let (c', out) := Commit.handle st.commit r; ({ st with commit := c' }, out)
+  | "heap" :: r => let (h', out) := HeapArea.handle st.heap r; ({ st with heap := h' }, out)
   | "store" :: r => let (s', out) := Store.handle st.store r; ({ st with store := s' }, out)
   | [] => (st, "bad empty")
   | a :: _ => (st, s!"bad area {a}")
